@@ -141,6 +141,8 @@ pub struct NetStats {
 }
 
 struct NetState {
+    /// conn id -> (event seq, virtual us) at which PgCat closed its end
+    pgcat_closed: BTreeMap<u32, (u64, u64)>,
     cfg: NetCfg,
     conns: BTreeMap<u32, Conn>,
     next_id: u32,
@@ -154,6 +156,7 @@ struct NetState {
 
 static NET: Lazy<Mutex<NetState>> = Lazy::new(|| {
     Mutex::new(NetState {
+        pgcat_closed: BTreeMap::new(),
         cfg: NetCfg::default(),
         conns: BTreeMap::new(),
         next_id: 1,
@@ -677,7 +680,8 @@ impl Drop for TcpStream {
         }
         drop(n);
         if self.owner == Owner::Pgcat {
-            crate::log::net(self.id * 2 + self.side as u32, b'd', 0, 0);
+            let seq = crate::log::net(self.id * 2 + self.side as u32, b'd', 0, 0);
+            NET.lock().pgcat_closed.insert(self.id, (seq, crate::clock::now_us()));
         }
     }
 }
@@ -816,6 +820,11 @@ pub mod world {
             w.wake();
         }
         Ok(mine)
+    }
+
+    /// (event seq, virtual us) at which PgCat closed its end of connection `id`, if it did.
+    pub fn pgcat_closed_at(id: u32) -> Option<(u64, u64)> {
+        NET.lock().pgcat_closed.get(&id).cloned()
     }
 
     /// Is PgCat's endpoint of connection `id` still open (counted at PgCat's end of the wire)?
